@@ -124,7 +124,7 @@ func init() {
 		},
 		Run:        runC14,
 		FaultKinds: []string{"growth_chunk_buggified", "shipped_chunk_long_history", "declaration_after_address_taken"},
-		ProbeNames: []string{"redeclarations", "evaluations", "read_backs", "addresses_taken_of_integer_slots", "complex128_declared_after_address_taken", "declarations"},
+		ProbeNames: []string{"redeclarations", "parallel_redeclarations", "evaluations", "read_backs", "addresses_taken_of_integer_slots", "complex128_declared_after_address_taken", "declarations"},
 		RealVsStub: []string{
 			"real: Interp.Eval (parse, compile, PrepareEnv/prepareEnv growth, NewBind slot assignment, address-taking), every evaluation is a separate top-level statement as in the REPL",
 			"stub: the tuning knob 'minimum growth of the global slot arrays' (hook H5); nothing else",
@@ -273,7 +273,57 @@ func runC14(t *testing.T, ch *sim.Choices, tier string) (o Outcome) {
 	}
 	for s := 0; s < steps; s++ {
 		pick := func(l []string) string { return l[gen.Draw(len(l))] }
-		switch op := gen.Draw(15); {
+		switch op := gen.Draw(16); {
+		case op == 15 && len(m.vars) > 0:
+			// parallel short declaration that re-declares one name and reads it on the right:
+			// `v, c := w, v`. Every operand is evaluated before anything is declared (in Go v is
+			// assigned, here it is re-declared: both readings agree on the values).
+			v := pick(m.vars)
+			old := m.cell[v]
+			if old.kind == "[]int" {
+				break
+			}
+			m.n++
+			rhs, val := c14Literal(old.kind, m.n)
+			switch old.kind {
+			case "int", "bool", "float64", "complex128", "string", "S":
+			default:
+				rhs = old.kind + "(" + rhs + ")" // keep the kind: an untyped literal would change it
+			}
+			for _, w := range m.vars {
+				if w != v && m.cell[w].kind == old.kind && gen.Draw(2) == 0 {
+					rhs, val = w, m.cell[w].val
+					break
+				}
+			}
+			nw := fmt.Sprintf("v%d", m.n)
+			m.cell[v] = &c14Cell{old.kind, val}
+			m.cell[nw] = &c14Cell{old.kind, old.val}
+			m.vars = append(m.vars, nw)
+			drop := func(names []string, of map[string]*c14Cell) []string {
+				var keep []string
+				for _, n := range names {
+					if of[n] != old {
+						keep = append(keep, n)
+					}
+				}
+				return keep
+			}
+			m.ptrs = drop(m.ptrs, m.ptrTo)
+			m.setters = drop(m.setters, m.setterOf)
+			m.funcs = drop(m.funcs, m.funcOf)
+			var keepC []string
+			for _, c := range m.callers {
+				if m.getterOf[m.callerOf[c]] != old {
+					keepC = append(keepC, c)
+				}
+			}
+			m.callers = keepC
+			m.getters = drop(m.getters, m.getterOf)
+			o.probe("parallel_redeclarations", 1)
+			if !eval(fmt.Sprintf("%s, %s := %s, %s", v, nw, rhs, v), "") {
+				return
+			}
 		case op == 14 && len(m.vars) > 0:
 			// re-declaration of an existing name with another kind, as REPL users do. Go has no
 			// such thing at package level, so only what every reading agrees on is required: the
